@@ -32,6 +32,20 @@ suite)
     git -C "$wt" apply "$patch" || { echo "SUITE: patch does not apply"; exit 1; }
     bash /verif/tools/run_suite.sh "$wt" 2>&1 | tail -1 ;;
 check)
+    # judged on a scratch worktree (VERIF_REPO) so that /repo, the committed evidence and replays stay untouched;
+    # `checkrepo` does the same by applying the patch to /repo itself and undoing it afterwards
+    patch=$(realpath "$1"); shift
+    wt=$(mktemp -d /tmp/mutwt.XXXXXX); rmdir "$wt"
+    git -C /repo worktree add -q "$wt" HEAD || exit 2
+    scratch=$(mktemp -d /tmp/mutev.XXXXXX)
+    trap 'git -C /repo worktree remove --force "$wt" >/dev/null 2>&1; rm -rf "$wt" "$scratch"' EXIT
+    git -C "$wt" apply "$patch" || exit 2
+    for p in "$@"; do
+        out=$(cd /verif && VERIF_REPO="$wt" VERIF_EVIDENCE_DIR="$scratch" VERIF_REPLAY_DIR="$scratch" python3 tools/check.py "$p" --tier quick 2>&1); rc=$?
+        echo "$out" | grep -E "VIOLATION|violation class|INFRA|KNOWN|quick:" | cut -c1-260
+        echo "CHECK $p rc=$rc"
+    done ;;
+checkrepo)
     patch=$(realpath "$1"); shift
     [ -z "$(git -C /repo status --porcelain --untracked-files=no)" ] || { echo "/repo has local changes"; exit 2; }
     git -C /repo apply "$patch" || exit 2
